@@ -214,6 +214,10 @@ where
 
         strict_assert!(!state.link.is_linked());
 
+        // The record is off the pin list now. A stale flag would make `acquire` skip the record and `release` unlink it
+        // from the wrong list if the same record is pushed again (a piece served by the disk cache write queue).
+        state.is_pinned = false;
+
         record.set_in_eviction(false);
     }
 
@@ -228,6 +232,7 @@ where
             if state.in_high_priority_pool {
                 state.in_high_priority_pool = false;
             }
+            state.is_pinned = false;
 
             record.set_in_eviction(false);
         }
